@@ -154,6 +154,20 @@ LONG = {
     "C20": "Also: every function-level invalid call around long series (lengths over the size alphabet) and every invalid Weaver request in large states (recreate with n in 17..64 and code constants + 1, one more operation).",
 }
 
+FORMS_TEXT = ("Input-forms harness: a thinned sub-lattice of every harness (first / middle / last option of every alphabet, the first "
+              "operation of a history and the invalid request never thinned) re-run with the arguments of each outermost call "
+              "converted at the package boundary to a strided view, a read-only array, columns of one shared buffer, a "
+              "negative-stride view, NumPy-scalar / Python-int parameters, and re-issued positionally / by keyword according to the "
+              "documented signatures; judged by the same case checkers. Size alphabets also cross the platform constants 128, 256, "
+              "2^15, 2^16, np.getbufsize(), io.DEFAULT_BUFFER_SIZE.")
+W7 = {
+    "C05": "Every n in 2..64 (130 thorough) on two short series; (m, n) pairs whose interval count crosses c // n for every threshold c.",
+    "C06": "Every n in 2..64 (130 thorough) on two short series; (m, n) pairs whose interval count crosses c // n for every threshold c.",
+    "C08": "Deep narrow histories: all histories over 11 operations (one per kind) to depth 4 (5 thorough).",
+    "C20": "Deep narrow histories: all programs over 11 operations (one per kind, observers included) to depth 4 (5 thorough), invalid requests fired in every state at depth >= 3.",
+    "C13": "Long series (up to 2*np.getbufsize()+2 samples) evaluated on short grids (samples and midpoints at the interesting positions).",
+}
+
 ALL = ["C%02d" % i for i in range(1, 21)]
 NOT_BUILT = "check not built yet in this session (design in DESIGN.md section 4); will be claimed once its harness exists"
 
@@ -166,6 +180,10 @@ def main():
         ref, tech, text, note = CHECKS[pid]
         if pid in LONG:
             text = text + " " + LONG[pid]
+        if pid in W7:
+            text = text + " " + W7[pid]
+        if pid not in ("C18", "C19"):
+            text = text + " " + FORMS_TEXT
         if not os.path.exists(os.path.join(ROOT, "checks", pid.lower() + ".py")):
             continue
         checks.append({
